@@ -19,7 +19,7 @@ ID = "C17"
 LEVEL = "exploration"
 RULE = (
     "Hypothesis draws C04-style fresh runs (all families/boxes/starts, callable gradient -- and differenced gradients {None, 2-point, 3-point} with power-of-two scalers, for which multiplication by s is exact --, ftarget float/callable/None, stopping callback, all budgets) and a scaler value s = 10^u, u in [-3,3] "
-    "(powers of two included on purpose) or the packaged projected-gradient unit scaler; the user gradient either returns fresh arrays or one reused output buffer. Run 1 uses gradient_scaler; run 2 minimises the harness-built objective s*f, s*grad f without scaler "
+    "(powers of two included on purpose) or the packaged projected-gradient unit scaler; the user gradient either returns fresh arrays or one reused output buffer; a third of the pairs carry an update function that changes nothing (the solver then runs its other per-iteration branch). Run 1 uses gradient_scaler; run 2 minimises the harness-built objective s*f, s*grad f without scaler "
     "(ftarget multiplied by s when s is a power of two; otherwise the target clause is judged on run 1 alone). non-trivial = >=2 iterations and s outside [0.5, 2]; distinct = distinct spec"
 )
 ASSUMPTIONS = [
@@ -52,7 +52,10 @@ def check(spec, stats=None):
     r1 = dict(rspec)
     r1["scaler"] = sc
     style = spec.get("jac_style", "fresh")
-    t1 = execute(r1, prob=prob, jac_style=style)
+    # an update function that changes nothing (the hook is present, the objective is not redefined) takes the solver
+    # through its other per-iteration branch; the equivalence must hold there too
+    hook = {"update_fun_def": "identity"} if spec.get("hook") else {}
+    t1 = execute(r1, prob=prob, jac_style=style, **hook)
     if t1.exc is not None:
         raise t1.exc
     require(t1.user_array_modified == 0, "user-gradient-array-untouched", "the array returned by the user's gradient was modified by the library")
@@ -86,7 +89,7 @@ def check(spec, stats=None):
         over = {}
         if ft is not None:
             over["ftarget"] = ft2
-        t2 = execute(r2, prob=prob, obj=Scaled(prob.obj, s), jac_style=style, **over)
+        t2 = execute(r2, prob=prob, obj=Scaled(prob.obj, s), jac_style=style, **over, **hook)
         if t2.exc is not None:
             raise t2.exc
         early = t1.res["njev"] == 0  # target met at the start: run 1 returns the unscaled f0, run 2 returns s*f0
@@ -108,7 +111,7 @@ def check(spec, stats=None):
                     f"early target stop differs: {t1.res['message']!r} vs {t2.res['message']!r}")
     if stats is not None:
         stats.case(spec, t1.res["nit"] >= 2 and not (0.5 <= s <= 2.0),
-                   [f"scaler={'unit' if sc == 'unit' else 'pow2' if is_pow2(s) else 'const'}", f"compared={compare}", f"jac_style={style}", f"msg={t1.res['message'][:26]}",
+                   [f"scaler={'unit' if sc == 'unit' else 'pow2' if is_pow2(s) else 'const'}", f"compared={compare}", f"jac_style={style}", f"identity_update_hook={bool(hook)}", f"msg={t1.res['message'][:26]}",
                     f"nit={'0' if t1.res['nit'] == 0 else '1' if t1.res['nit'] == 1 else '2+'}", f"jac={mode}"],
                    sample={"family": rspec["problem"]["obj"]["family"], "s": s, "cfg": rspec["cfg"], "ftarget": rspec.get("ftarget"), "compared_bitwise": compare})
 
@@ -127,7 +130,7 @@ def strategy(draw):
         sc = 2.0 ** draw(st.integers(-9, 9))
     else:
         sc = "unit"
-    return {"run": r, "scaler": sc, "jac_style": draw(st.sampled_from(["fresh", "fresh", "buffer"]))}
+    return {"run": r, "scaler": sc, "jac_style": draw(st.sampled_from(["fresh", "fresh", "buffer"])), "hook": draw(st.sampled_from([False, False, True]))}
 
 
 def shard(ctx):
